@@ -171,6 +171,28 @@ func StdFixture(in *Instance) {
 	in.RegisterTool(mcp.NewTool("nilcontent", mcp.WithString("nonce")), func(ctx context.Context, req *mcp.CallToolRequest) (*mcp.CallToolResult, error) {
 		return &mcp.CallToolResult{}, nil
 	})
+	in.RegisterTool(mcp.NewTool("notify", mcp.WithString("nonce"), mcp.WithNumber("n")), func(ctx context.Context, req *mcp.CallToolRequest) (*mcp.CallToolResult, error) {
+		nonce := argString(req.Params.Arguments, "nonce")
+		n, _ := req.Params.Arguments["n"].(float64)
+		sent := 0
+		if sender, ok := mcp.GetNotificationSender(ctx); ok {
+			for i := 0; i < int(n); i++ {
+				var err error
+				switch i % 3 {
+				case 0:
+					err = sender.SendProgress(float64(i)/float64(n), fmt.Sprintf("%s#%d", nonce, i))
+				case 1:
+					err = sender.SendLogMessage("info", fmt.Sprintf("%s#%d", nonce, i))
+				default:
+					err = sender.SendCustomNotification("notifications/verif", map[string]interface{}{"nonce": nonce, "seq": i, "_meta": map[string]interface{}{"k": "v"}})
+				}
+				if err == nil {
+					sent++
+				}
+			}
+		}
+		return mcp.NewTextResult(fmt.Sprintf("%s sent=%d", nonce, sent)), nil
+	})
 	in.RegisterPrompt(&mcp.Prompt{Name: "p-ok", Description: "ok prompt", Arguments: []mcp.PromptArgument{{Name: "who", Required: true}}},
 		func(ctx context.Context, req *mcp.GetPromptRequest) (*mcp.GetPromptResult, error) {
 			return &mcp.GetPromptResult{Description: "d:" + req.Params.Arguments["who"], Messages: []mcp.PromptMessage{
